@@ -34,5 +34,29 @@ CHECKS["C18"] = {
             "Batched tells through the wrapper are outside the property's quantifier (see DESIGN.md).",
     "technique": T,
 }
+_RUNNER_NOTE = ("Trusted: Lean kernel, standard axioms, hand model Runner.lean tied by call-by-call differential testing under "
+                "deterministic schedules (shims for concurrent.futures.wait / asyncio.wait, inert futures); real executors' "
+                "thread/process behaviour and asyncio internals are not modelled; exceptions raised by learner/goal out of scope.")
+CHECKS["C05"] = {
+    "level": "proof",
+    "text": "Kernel-checked theorems over every configuration and every event list (all learners, goals, completion orders, "
+            "cancellation points): legal tells, in-flight bound and refill, clean exit. Real Blocking/Async runners (executor and "
+            "coroutine functions) are driven by seeded and exhaustive-small schedules and compared with the model call by call.",
+    "design_ref": "DESIGN.md section 6 C05", "note": _RUNNER_NOTE, "technique": T,
+}
+CHECKS["C06"] = {
+    "level": "proof",
+    "text": "Kernel-checked theorems for every assignment of success/failure to evaluations: at most retries+1 evaluations per "
+            "point, retries scheduled before new points, at most one tell and none after exhaustion, characterisation of "
+            "`failed` and of the raised error. Same correspondence with failure outcomes; trace oracles on the real runners.",
+    "design_ref": "DESIGN.md section 6 C06", "note": _RUNNER_NOTE, "technique": T,
+}
+CHECKS["C19"] = {
+    "level": "proof",
+    "text": "Kernel-checked: with logging and no failures the log is the projection of the call trace, every logged ask has "
+            "n>=1, and replay-then-discard equals the original learner for every deterministic learner whose tell commutes "
+            "with remove_unfinished (proved for the SequenceLearner model). Real runners with log=True replayed on fresh learners.",
+    "design_ref": "DESIGN.md section 6 C19", "note": _RUNNER_NOTE, "technique": T,
+}
 _PENDING = "machinery for this property is not built yet in this commit (work in progress; see DESIGN.md section 9)"
 NOT_APPLICABLE = {f"C{i:02d}": _PENDING for i in range(1, 21) if f"C{i:02d}" not in CHECKS}
